@@ -89,3 +89,9 @@ Definition c18_frame_stmt : Prop :=
   forall u s w', WInv u (t_w s) -> fits (t_w s) -> WInv u w' -> fits w' -> flushed w' ->
     (forall h l, abs (t_w s) h = Some l -> abs w' h <> None) ->
     prev_live s -> prev_live {| t_w := w'; t_prev := t_prev s |}.
+
+(* a quiet interval: a second track call with nothing done in between reports nothing at all, whatever the first
+   call's consumption script was *)
+Definition c18_quiet_stmt : Prop :=
+  forall s reads s' reps, nodup_live s -> prev_live s -> track s reads = (s', reps) ->
+    added_set s' = [] /\ changed_set s' = [] /\ removed_set s' = [].
